@@ -45,6 +45,7 @@ type Clause struct {
 }
 
 type LoopSpec struct {
+	Variant    string // "", "purego" or "default": build variant the loop exists in
 	Ordinal    int
 	Names      []string
 	Invariants []*Clause
@@ -68,6 +69,7 @@ type Contract struct {
 	ModAll    bool // modifies *
 	HasMod    bool
 	Loops     map[int]*LoopSpec
+	VLoops    map[string]*LoopSpec // "<ordinal>|<variant>"
 	Flags     map[string]string // inline, pure, wraps, maypanic, theory, trusted ...
 	Assumed   bool
 	Iface     bool
@@ -725,18 +727,31 @@ func ParseSpecFile(path, defaultPkg string) (*SpecFile, error) {
 			if cur == nil {
 				return nil, fail(fmt.Errorf("loop outside contract"))
 			}
+			variant := ""
+			if i := strings.Index(rest, "["); i >= 0 {
+				j := strings.Index(rest, "]")
+				variant = strings.TrimSpace(rest[i+1 : j])
+				rest = rest[:i] + rest[j+1:]
+			}
 			f := strings.Fields(strings.NewReplacer("(", " ", ")", " ", ",", " ").Replace(rest))
 			if len(f) == 0 {
 				return nil, fail(fmt.Errorf("loop ordinal expected"))
 			}
 			var ord int
 			fmt.Sscanf(f[0], "%d", &ord)
-			curLoop = &LoopSpec{Ordinal: ord, Names: f[1:]}
+			curLoop = &LoopSpec{Ordinal: ord, Names: f[1:], Variant: variant}
 			curCase = nil
-			if cur.Loops == nil {
-				cur.Loops = map[int]*LoopSpec{}
+			if variant != "" {
+				if cur.VLoops == nil {
+					cur.VLoops = map[string]*LoopSpec{}
+				}
+				cur.VLoops[fmt.Sprintf("%d|%s", ord, variant)] = curLoop
+			} else {
+				if cur.Loops == nil {
+					cur.Loops = map[int]*LoopSpec{}
+				}
+				cur.Loops[ord] = curLoop
 			}
-			cur.Loops[ord] = curLoop
 		case "unroll":
 			if curLoop == nil {
 				return nil, fail(fmt.Errorf("unroll outside loop"))
